@@ -13,7 +13,9 @@ class Clause:
     """a named contract clause. props: the properties it serves; tier: 'P' proved (all inputs) or
     'B' bounded-deductive (shapes enumerated, everything else symbolic)"""
 
-    def __init__(self, unit, name, props, tier, doc=''):
+    def __init__(self, unit, name, props, tier, doc='', internal=False):
+        self.internal = internal    # clause on a private boundary: its counterexample is replayed through the public
+        #                             entry point, where it need not be observable (then: no-failing-input-found)
         self.unit = unit
         self.name = name
         self.props = tuple(props)
@@ -28,8 +30,8 @@ class Clause:
 REGISTRY = {}
 
 
-def clause(unit, name, props, tier, doc=''):
-    c = Clause(unit, name, props, tier, doc)
+def clause(unit, name, props, tier, doc='', internal=False):
+    c = Clause(unit, name, props, tier, doc, internal)
     REGISTRY[c.full] = c
     return c
 
@@ -62,7 +64,43 @@ def ua_denotes(ua, empty_ann):
             has = z3.If(cond, h, has)
             den = z3.If(cond, d, den)
         return has, den
+    if isinstance(ua, Inst):
+        # an annotation wrapper built by the interpreted code: ask its REAL source_value() (eval is the
+        # uninterpreted evalin(expression, function))
+        I = ua._cls.interp
+        v = I.call(I.getattr_(ua, 'source_value'), [], [])
+        from vf.sym import EMPTY, SymVal
+        if v is EMPTY:
+            return z3.BoolVal(False), NONEVAL
+        if isinstance(v, SymVal):
+            return z3.BoolVal(True), v.t
+        if isinstance(v, MV):
+            return v.has, v.val
+        if v is None:
+            return z3.BoolVal(True), NONEVAL
     raise EngineLimit('unknown upgraded annotation %r' % (ua,))
+
+
+def ua_follows_goal(p, empty_ann, cands=None):
+    """C11 on one result parameter: its upgraded annotation is present iff the parameter is annotated, and then
+    denotes what the annotation of a contributing input parameter (same annotation value) denotes in the globals
+    of the function that defined it"""
+    a = p._d['_annotation']
+    h, den = ua_denotes(p._d['upgraded_annotation'], empty_ann)
+    alts = []
+    for s in (cands if cands is not None else stands_of(p)):
+        sa = s._d['_annotation']
+        sh, sden = ua_denotes(s._d['upgraded_annotation'], empty_ann)
+        alts.append(z3.And(sa.has, sh, a.val == sa.val, den == sden))
+    return z3.And(h == a.has, z3.Implies(a.has, z3.Or(*alts) if alts else z3.BoolVal(False)))
+
+
+def ua_return_goal(res, first, empty_ann):
+    """return annotation: the first signature's, with its upgraded wrapper"""
+    ra, ora = res._d['_return_annotation'], first._d['_return_annotation']
+    h, den = ua_denotes(res._d['upgraded_return_annotation'], empty_ann)
+    oh, oden = ua_denotes(first._d['upgraded_return_annotation'], empty_ann)
+    return z3.And(ra.has == ora.has, z3.Implies(ora.has, ra.val == ora.val), h == ra.has, z3.Implies(ra.has, z3.And(oh, den == oden)))
 
 
 def ua_is(ua, tok, empty_ann):
